@@ -67,6 +67,9 @@ REQUIRED = ["oracle.vector.rewards.function", "oracle.vector.rewards.list", "ora
             "oracle.lazy-dense-logged-action.plain-actions.Finalize",
             "oracle.binary-argmax-not-offered.Repr", "oracle.binary-argmax-not-offered.Finalize"]
 ASSUMPTIONS = [
+    "one action type per environment: every interaction of an environment spells its actions with the same kind of value (all plain strings, "
+    "or all Categoricals, ...); streams that change the kind part-way (round-6 seed C10-11 needs one) are not generated -- the 'one action, one "
+    "representation' oracle compares by ==, under which a Categorical equals its string",
     "only action/context noise is configured (reward noise changes rewards by design); Cycle and Binary are not part of the property",
     "an interaction whose actions collide into equal values right after hashing Densify(action=True) or action Noise is discarded (counted in discarded.collision): the i-th action is then ill-defined for a reward function; after Densify(method='lookup') this is excused only when the environment itself presented more feature names than n_feats (counted in skipped.lookup_overfull)",
     "Densify(method='lookup') is given n_feats >= the number of distinct feature names of every single environment (its documented no-collision regime; n_feats is per environment, as Environments.dense documents)",
